@@ -20,7 +20,8 @@ INDEX — the clauses of properties.jsonl#C19.statement and the theorems that pr
       `reachable_iff`, `genNonce_mem` — existence of a random source only.
  7. "sends closer together than the minimum interval … are refused"
       → `vc_too_frequent_iff` (one step), `vc_first_send_not_too_frequent`, `vc_send_limits_min_interval` (exact: refused IFF
-        time − previous accepted send < MinInterval), `vc_send_limits_min_interval_key`.
+        time − previous accepted send < MinInterval), `vc_send_limits_min_interval_key`; concurrent callers: `vc_resend_refused_any_interleaving`
+        (in every sequential interleaving of one caller's re-sends with other callers' operations on other pairs, every re-send inside the interval is refused), `resends_refused`.
  2'. other phone / area code with the cache filled far beyond capacity: `bulk_spec` (closed form of n sends to distinct pairs = model run), `bulk_keys`.
  8. "or beyond the per-window count limit, are refused" → `vc_send_limits_count` (≤ MaxCount+1 per window, ghost window from outputs and
       clock), `vc_count_limit_iff`, `vc_window_refresh`.
@@ -654,6 +655,140 @@ theorem vc_send_limits_min_interval (c : Cfg) (hc : Proved c) (pr : Params) (hca
     (by rw [hs]; exact hev) t, hc.2.2.2.1]
   simp only [LtCmp.holds, decide_eq_true_eq]
 
+/-! #### concurrent callers: what every sequential interleaving guarantees for re-sends -/
+
+/-- the results of the send operations addressing key `k`, in order -/
+def sendOutsTo (c : Cfg) (pr : Params) (k : Str) : State → List Op → List SendResult
+  | _, [] => []
+  | s, o :: os =>
+    (match o.isSend && decide (o.key c = k), (step c pr s o).2 with
+      | true, .send x => [x]
+      | _, _ => []) ++ sendOutsTo c pr k (step c pr s o).1 os
+
+theorem holds_max (cmp : LtCmp) (a b T d : Int) (ha : cmp.holds (a - T) d = true) (hb : cmp.holds (b - T) d = true) (m : Int)
+    (hm : m = a ∨ m = b) : cmp.holds (m - T) d = true := by
+  rcases hm with h | h <;> rw [h] <;> assumption
+
+/-- while the entry of `k` (set at reading `T`) is not evicted and every clock reading stays inside the minimum interval, every send to `k`
+    is refused as too frequent — whatever else happens in between -/
+theorem resends_refused (c : Cfg) (pr : Params) (k : Str) (T : Nat) : ∀ (ops : List Op) (s : State),
+    (∃ e, lookup k s.cache = some e ∧ e.setTime = T) →
+    c.minIntervalCmp.holds ((s.now : Int) - T) pr.minInterval = true →
+    (∀ o ∈ ops, c.minIntervalCmp.holds ((o.time : Int) - T) pr.minInterval = true) →
+    noEvict c pr k s ops = true → ∀ x ∈ sendOutsTo c pr k s ops, x = .tooFreq
+  | [], _, _, _, _, _ => by simp [sendOutsTo]
+  | o :: os, s, ⟨e, hl, hT⟩, hnow, htimes, hev => by
+    have hev' := noEvict_cons c pr k s o os hev
+    have hnow' : c.minIntervalCmp.holds (((step c pr s o).1.now : Int) - T) pr.minInterval = true := by
+      rw [step_now]
+      apply holds_max _ _ _ _ _ hnow (htimes o (by simp))
+      rcases Nat.le_total s.now o.time with h | h
+      · right; rw [Nat.max_eq_right h]
+      · left; rw [Nat.max_eq_left h]
+    have hrest : ∀ o' ∈ os, c.minIntervalCmp.holds ((o'.time : Int) - T) pr.minInterval = true :=
+      fun o' h => htimes o' (by simp [h])
+    have hnowA : c.minIntervalCmp.holds (((advance o.time s).now : Int) - T) pr.minInterval = true := by
+      have := hnow'; rw [step_now] at this; exact this
+    intro x hx
+    simp only [sendOutsTo, List.mem_append] at hx
+    by_cases hk : o.key c = k
+    · cases o with
+      | send t a p =>
+        have hk' : mkKey c.sendKeyFmt a p = k := hk
+        have hres : (sendK c pr (advance t s) k p).2 = .tooFreq :=
+          (vc_too_frequent_iff c pr (advance t s) k p e (by simpa using hl)).2 (by rw [hT]; exact hnowA)
+        have hst : (sendK c pr (advance t s) k p).1 = advance t s := by
+          rcases sendK_cases c pr (advance t s) k p with ⟨_, h2⟩ | ⟨cnt, ct, h1, _, _⟩
+          · exact h2
+          · rw [hres] at h1; simp [SendResult.accepted] at h1
+        rcases hx with hx | hx
+        · simp only [Op.isSend, hk, decide_true, Bool.and_self, step, send, hk', hres, List.mem_singleton] at hx
+          exact hx
+        · refine resends_refused c pr k T os _ ⟨e, ?_, hT⟩ hnow' hrest hev'.2 x hx
+          simp only [step, send, hk', hst]; simpa using hl
+      | verify t a p code hash =>
+        have hk' : mkKey c.verifyKeyFmt a p = k := hk
+        rcases hx with hx | hx
+        · simp [Op.isSend] at hx
+        · refine resends_refused c pr k T os _ ⟨{ e with verifyCount := e.verifyCount + 1 }, ?_, hT⟩ hnow' hrest hev'.2 x hx
+          simp only [step, verify, hk']
+          rw [verifyK_some _ _ _ _ _ _ e (by simpa using hl)]
+          exact lookup_touch_self _ _ _
+    · rcases hx with hx | hx
+      · simp [hk] at hx
+      · refine resends_refused c pr k T os _ ⟨e, ?_, hT⟩ hnow' hrest hev'.2 x hx
+        rcases step_lookup_other c pr s o k hk with h1 | h1
+        · have := hev'.1 (by simp [present, hl]); simp [present, h1] at this
+        · rw [h1]; exact hl
+
+/-- `cs` is a merge of `as` and `bs` that keeps the order inside each of them: one sequential interleaving of two callers -/
+inductive Interleave {α : Type} : List α → List α → List α → Prop
+  | nil : Interleave [] [] []
+  | left {a : α} {as bs cs : List α} : Interleave as bs cs → Interleave (a :: as) bs (a :: cs)
+  | right {b : α} {as bs cs : List α} : Interleave as bs cs → Interleave as (b :: bs) (b :: cs)
+
+theorem Interleave.mem {α : Type} {as bs cs : List α} (h : Interleave as bs cs) : ∀ x ∈ cs, x ∈ as ∨ x ∈ bs := by
+  induction h with
+  | nil => simp
+  | left _ ih => intro x hx; simp only [List.mem_cons] at hx ⊢; rcases hx with hx | hx
+                 · exact Or.inl (Or.inl hx)
+                 · rcases ih x hx with h | h
+                   · exact Or.inl (Or.inr h)
+                   · exact Or.inr h
+  | right _ ih => intro x hx; simp only [List.mem_cons] at hx ⊢; rcases hx with hx | hx
+                  · exact Or.inr (Or.inl hx)
+                  · rcases ih x hx with h | h
+                    · exact Or.inl h
+                    · exact Or.inr (Or.inr h)
+
+theorem othersOf_interleave (c : Cfg) (k : Str) {as bs cs : List Op} (h : Interleave as bs cs)
+    (has : ∀ o ∈ as, o.key c = k) : othersOf c k cs ≤ bs.length := by
+  induction h with
+  | nil => simp [othersOf]
+  | @left a as bs cs _ ih =>
+    have hk : a.key c = k := has a (by simp)
+    have := ih (fun o ho => has o (by simp [ho]))
+    have e : othersOf c k (a :: cs) = othersOf c k cs := by simp [othersOf, hk]
+    rw [e]; exact this
+  | @right b as bs cs _ ih =>
+    have := ih has
+    have e : othersOf c k (b :: cs) ≤ othersOf c k cs + 1 := by
+      unfold othersOf; rw [List.filter_cons]; split <;> simp
+    simp only [List.length_cons]; omega
+
+/-- **vc_resend_refused_any_interleaving** (`Proved c`, all strings): a code is sent to (a, p) and accepted at clock reading `s.now`, with
+    MinInterval > 0. One caller then re-sends to (a, p) any number of times while other callers do anything at all (sends and verifies on
+    other pairs, verifies of this pair; further sends to this pair are refused like the re-sends) — fewer than CacheSize operations, every clock reading still inside the minimum interval (e.g. all at the same reading).
+    In EVERY sequential interleaving `merged` of the two operation lists, every one of the re-sends is refused as too frequent.
+    (This is what a run with truly parallel callers must linearise to; the harness's `race` line checks it on one instance.) -/
+theorem vc_resend_refused_any_interleaving (c : Cfg) (hc : Proved c) (pr : Params)
+    (s : State) (a p : Str) (h : Nat) (hacc : (send c pr s a p).2.accepted = some h)
+    (resends others merged : List Op) (hm : Interleave resends others merged)
+    (hres : ∀ o ∈ resends, ∃ t, o = .send t a p)
+    (hfew : others.length < pr.cap)
+    (htime : ∀ o ∈ merged, ((o.time : Int) - s.now < pr.minInterval)) (hmin : 0 < pr.minInterval) :
+    ∀ x ∈ sendOutsTo c pr (mkKey .lenPrefix a p) (send c pr s a p).1 merged, x = .tooFreq := by
+  have hcap : 0 < pr.cap := by omega
+  have hs : c.sendKeyFmt = .lenPrefix := hc.1
+  have hlt : c.minIntervalCmp = .lt := hc.2.2.2.1
+  obtain ⟨cnt, ct, hl⟩ := vc_send_resets_attempts c pr hcap s a p h hacc
+  rw [hs] at hl
+  have hnow : (send c pr s a p).1.now = s.now := by
+    unfold send at hacc ⊢
+    rcases sendK_cases c pr s (mkKey c.sendKeyFmt a p) p with ⟨h1, _⟩ | ⟨cnt, ct, _, h2, _⟩
+    · rw [h1] at hacc; cases hacc
+    · rw [h2]
+  have hkeys : ∀ o ∈ resends, o.key c = mkKey .lenPrefix a p := by
+    intro o ho; obtain ⟨t, rfl⟩ := hres o ho; simp [Op.key, hs]
+  apply resends_refused c pr (mkKey .lenPrefix a p) s.now merged (send c pr s a p).1 ⟨_, hl, rfl⟩
+  · rw [hnow, hlt]; simp only [LtCmp.holds, decide_eq_true_eq]; omega
+  · intro o ho; rw [hlt]; simp only [LtCmp.holds, decide_eq_true_eq]; exact htime o ho
+  · apply noEvict_of_few_others
+    have hp0 := send_accepted_pos0 c pr hcap s a p h hacc
+    rw [hs] at hp0
+    have := othersOf_interleave c (mkKey .lenPrefix a p) hm hkeys
+    rw [hp0]; omega
+
 /-- ghost window of key `k`, computed from the outputs and the clock alone: (window start, accepted sends in that window); an accepted
     send starts a new window when there is none or when (its time − window start) compares `>` CounterDuration as the source compares -/
 def winGhost (c : Cfg) (pr : Params) (k : Str) : State → List Op → Option (Nat × Nat) → Option (Nat × Nat)
@@ -1218,6 +1353,13 @@ example : (outs (step cfgFixed prTimed) State.init
 example : winGhost cfgFixed prTimed (mkKey .lenPrefix ['1'] ['2']) State.init
     [.send 100 ['1'] ['2'], .send 104 ['1'] ['2'], .send 110 ['1'] ['2'], .send 111 ['1'] ['2'], .send 115 ['1'] ['2']] none =
     some (111, 2) := by decide
+
+/-- `vc_resend_refused_any_interleaving`: two interleavings of the re-sends [r, r] with another caller's [send B, verify A wrong] — both re-sends refused -/
+example : sendOutsTo cfgFixed { prStd with minInterval := 1000 } (mkKey .lenPrefix ['1'] ['2']) (send cfgFixed { prStd with minInterval := 1000 } State.init ['1'] ['2']).1
+    [.send 0 ['1'] ['2'], .send 0 ['1'] ['3'], .send 0 ['1'] ['2'], .verify 0 ['1'] ['2'] (.lit ['x']) 1] = [.tooFreq, .tooFreq] ∧
+  sendOutsTo cfgFixed { prStd with minInterval := 1000 } (mkKey .lenPrefix ['1'] ['2']) (send cfgFixed { prStd with minInterval := 1000 } State.init ['1'] ['2']).1
+    [.send 0 ['1'] ['3'], .verify 0 ['1'] ['2'] (.lit ['x']) 1, .send 0 ['1'] ['2'], .send 0 ['1'] ['2']] = [.tooFreq, .tooFreq] := by decide
+example : Interleave [1, 2] [10, 20] [1, 10, 2, 20] := .left (.right (.left (.right .nil)))
 
 /-- `vc_attempts_bounded` / `vc_attempts_exhausted`: MaxVerifyCount = 2 — two wrong guesses, then the right code is refused;
     `vc_send_resets_attempts`: a new send makes the new code verify -/
